@@ -35,6 +35,8 @@ type RC struct {
 	clusterRec map[*FuncInfo]*Analysis
 	verifiers  []*FuncInfo
 	cfgChecker *FuncInfo
+	auditN     int
+	auditBad   []string
 	cfgNonNil  map[string]bool
 	cfgNonZero map[string]bool
 }
@@ -374,6 +376,21 @@ func (c *RC) guardRule(r *RuleResult, sites []*Site, roots []*FuncInfo, g func(s
 				}
 			}
 		}
+		if f == nil && c.Tier == "thorough" {
+			// differential audit of the two evaluation strategies: what the summaries prove, the walk with helpers
+			// inline (strictly more precise) must prove as well; a disagreement means a summary keeps a fact it should
+			// have dropped
+			if s2 := c.clusterSite(s); s2 != nil && s2 != s {
+				c.auditN++
+				d2 := c.A.newDemand(roots)
+				if cfg != nil {
+					cfg(d2)
+				}
+				if f2 := d2.ProveAt(s2, func(sn *Snap) *Formula { return g(s2, sn) }); f2 != nil {
+					c.auditBad = append(c.auditBad, fmt.Sprintf("%s %s@%s: proven on summaries but not on the inline walk from %s: %s", r.Rule, s.Fn.Name, c.Prog.Pos(s.Node), s2.Fn.Name, f2.String()))
+				}
+			}
+		}
 		if f == nil {
 			r.ok(lab + fmt.Sprintf(" — proven on %d path snapshot(s)", len(s.Snaps)))
 		} else {
@@ -499,6 +516,15 @@ func runProperty(repo, prop, tier, evid, knownPath string) int {
 	}
 	results = append(results, und)
 	if tier == "thorough" && prop != "C20" {
+		ai := &RuleResult{Rule: "AUDIT-INLINE", Kind: "AUDIT", Doc: "thorough tier: every guard obligation proven with callee summaries is proven again on the walk of its cluster root with single-caller helpers inline; the two strategies must agree"}
+		ai.Sites = c.auditN
+		for i, b := range c.auditBad {
+			ai.fail(fmt.Sprintf("audit-inline/%d", i), "", b)
+		}
+		if len(c.auditBad) == 0 {
+			ai.ok(fmt.Sprintf("%d guard obligations re-proven on the inline walk", c.auditN))
+		}
+		results = append(results, ai)
 		results = append(results, ruleSSAAudit(c))
 		results = append(results, thoroughReload(repo, prop, results)...)
 	}
